@@ -455,6 +455,31 @@ struct PotCase {
   J desc;
 };
 static double sgn(vfh::Rng &r) { return r.coin() ? 1.0 : -1.0; }
+// the double a parser produces for the decimal number milli/1000
+static double dec3(long milli) {
+  char b[64];
+  snprintf(b, sizeof b, "%s%ld.%03ld", milli < 0 ? "-" : "", std::labs(milli) / 1000, std::labs(milli) % 1000);
+  return strtod(b, nullptr);
+}
+// parameter vector of a potential type (6 orders of magnitude)
+static std::vector<double> gen_params(vfh::Rng &r, int type, double rcut, Index nlam) {
+  std::vector<double> v;
+  if (type == 0) { v = {r.logu(1e-6, 1), r.logu(1e-6, 1) * (r.coin(0.1) ? -1 : 1)}; }
+  else if (type == 1) {
+    v = {r.logu(1e-6, 1), r.logu(1e-6, 1), sgn(r) * r.logu(1e-3, 1e3), r.coin(0.1) ? -r.logu(1e-3, 1) : r.logu(1e-2, 1e4), r.uni(0, 1.2 * rcut)};
+  } else {
+    double sc = r.logu(1e-3, 1e3);
+    for (Index i = 0; i < nlam; ++i) v.push_back(sc * r.normal() * (r.coin(0.1) ? 1e-3 : 1));
+    for (Index i = nlam - 4; i < nlam; ++i) v[i] = 0.0;  // what setParam(file) enforces
+  }
+  return v;
+}
+static std::unique_ptr<PotentialFunction> make_pot(int type, Index nlam, double rmin, double rcut) {
+  if (type == 0) return std::make_unique<PotentialFunctionLJ126>("lj126", rmin, rcut);
+  if (type == 1) return std::make_unique<PotentialFunctionLJG>("ljg", rmin, rcut);
+  return std::make_unique<PotentialFunctionCBSPL>("cbspl", nlam, rmin, rcut);
+}
+static bool same(double a, double b) { return a == b || (std::isnan(a) && std::isnan(b)); }
 
 static PotCase gen_pot(vfh::Rng &r, int type) {
   PotCase P;
@@ -594,6 +619,68 @@ static void part_pot(vfh::Rng &rng, vfh::Reporter &R, long ncases, const std::st
         }
       }
     }
+    // ---- object reuse: after a parameter change (and, for the LJ forms, a change of min/cut-off) the
+    // used object must answer exactly like a fresh object that was given the new values
+    {
+      const Index nl = pf.getParamSize();
+      const Index nexcl = nl - 4 - no;
+      double nmin = P.rmin, ncut = P.rcut;
+      bool newrange = type != 2 && rng.coin(0.5);
+      if (newrange) { ncut = rng.logu(0.5, 3.0); nmin = rng.coin(0.2) ? 0.0 : rng.uni(0.02, 0.4) * ncut; }
+      int rounds = (int)rng.range(1, 2);  // parameters are replaced once or twice
+      std::vector<double> nl_par;
+      int route = 0;
+      for (int k = 0; k < rounds; ++k) {
+        nl_par = gen_params(rng, type, ncut, nl);
+        route = (int)rng.range(0, 2);
+        if (route == 0) for (Index i = 0; i < nl; ++i) pf.setParam(i, nl_par[i]);
+        else if (route == 1) pf.PotentialFunction::setParam(Eigen::Map<Eigen::VectorXd>(nl_par.data(), nl));
+        else {  // optimised parameters through setOptParam, the others through setParam
+          for (Index i = 0; i < nl; ++i) pf.setParam(i, 0.125);
+          for (Index i = 0; i < no; ++i) pf.setOptParam(i, nl_par[(type == 2 ? nexcl : 0) + i]);
+          for (Index i = 0; i < nl; ++i) if (type == 2 && (i < nexcl || i >= nexcl + no)) pf.setParam(i, nl_par[i]);
+        }
+        if (k + 1 < rounds) (void)pf.CalculateF(0.5 * (P.rmin + P.rcut));
+      }
+      if (newrange) { pf.setMinDist(nmin); pf.setCutOffDist(ncut); }
+      auto fresh = make_pot(type, nl, nmin, ncut);
+      for (Index i = 0; i < nl; ++i) fresh->setParam(i, nl_par[i]);
+      J w;
+      w.s("type", P.type).raw("first_use", P.desc.str()).vec("new_params", nl_par).d("new_min", nmin).d("new_cutoff", ncut).i("route", route).i("parameter_changes", rounds);
+      vfh::set_case(w.str());
+      R.eval(P.type + "_reuse");
+      bool bad = false;
+      for (Index i = 0; i < no && !bad; ++i)
+        if (!same(pf.getOptParam(i), fresh->getOptParam(i))) {
+          bad = true;
+          R.violation("pot-reuse/" + P.type + "/parameter-readback", "getOptParam after a parameter change differs from a fresh object", J().raw("case", w.str()).i("i", i).d("reused", pf.getOptParam(i)).d("fresh", fresh->getOptParam(i)));
+        }
+      if (!same(pf.getCutOff(), ncut) || !same(pf.getMinDist(), nmin)) {
+        bad = true;
+        R.violation("pot-reuse/" + P.type + "/range-readback", "getMinDist/getCutOff do not return what was set", J().raw("case", w.str()).d("min", pf.getMinDist()).d("cutoff", pf.getCutOff()));
+      }
+      for (int ir = 0; ir < 5 && !bad; ++ir) {
+        double lo = std::max(nmin, type == 2 ? 0.0 : 0.02 * ncut);
+        double r = ir == 0 ? lo : ir == 1 ? ncut : ir == 2 ? ncut * 1.05 : rng.uni(lo, ncut);
+        if (type == 2 && r > ncut) r = ncut;
+        double a = pf.CalculateF(r), b = fresh->CalculateF(r);
+        if (!same(a, b)) { bad = true; R.violation("pot-reuse/" + P.type + "/value-after-parameter-change", "CalculateF of a reused object differs from a fresh object with the same parameters", J().raw("case", w.str()).d("r", r).d("reused", a).d("fresh", b)); break; }
+        for (Index i = 0; i < no && !bad; ++i) {
+          a = pf.CalculateDF(i, r); b = fresh->CalculateDF(i, r);
+          if (!same(a, b)) { bad = true; R.violation("pot-reuse/" + P.type + "/DF-after-parameter-change", "CalculateDF of a reused object differs from a fresh object with the same parameters", J().raw("case", w.str()).d("r", r).i("i", i).d("reused", a).d("fresh", b)); break; }
+          Index jn = type == 2 ? std::min<Index>(no, 6) : no;  // full index square for the closed forms
+          for (Index j = 0; j < jn && !bad; ++j) {
+            a = pf.CalculateD2F(i, j, r); b = fresh->CalculateD2F(i, j, r);
+            if (!same(a, b)) { bad = true; R.violation("pot-reuse/" + P.type + "/D2F-after-parameter-change", "CalculateD2F of a reused object differs from a fresh object with the same parameters", J().raw("case", w.str()).d("r", r).i("i", i).i("j", j).d("reused", a).d("fresh", b)); }
+          }
+        }
+      }
+      if (!bad) R.nontrivial(vfh::hdouble(vfh::hdouble(vfh::hstr(123, P.type), nl_par[0]), ncut));
+      // continue with the new state (the table below is written by the reused object)
+      P.rmin = nmin; P.rcut = ncut;
+      P.desc = J();
+      P.desc.s("type", P.type).d("min", P.rmin).d("cutoff", P.rcut).vec("params", nl_par).i("n_opt", P.nopt).b("object_reused", true);
+    }
     // ---- tabulated potential = CalculateF on the requested grid
     if (ic % 4 < 2 || type == 2) {
       bool four = rng.coin();
@@ -608,6 +695,15 @@ static void part_pot(vfh::Rng &rng, vfh::Reporter &R, long ncases, const std::st
       long npt = rng.range(2, 120);
       double step = (rcut - rmin) / ((double)npt - 1 + (rng.coin(0.3) ? rng.uni(0.05, 0.9) : 0.0));
       if (rng.coin(0.3)) step = std::max(1e-4, std::round(step * 1000) / 1000);
+      bool decimal = rng.coin(0.3);
+      if (decimal) {  // decimal grids such as 0.1:0.1:0.8: (rcut-rmin)/step is an integer only up to an ulp
+        static const long steps[] = {1, 2, 5, 10, 20, 25, 50, 100, 125};
+        long sm = steps[rng.range(0, 8)];
+        long j0 = std::max<long>((long)std::ceil((type == 2 ? 0.0 : 0.02 * P.rcut) * 1000 / (double)sm), rng.range(0, 40));
+        npt = rng.range(2, 120);
+        four = true;
+        step = dec3(sm); rmin = dec3(j0 * sm); rcut = dec3((j0 + npt - 1) * sm);
+      }
       std::string fn = tmp + "/pot.tab";
       J w;
       w.raw("potential", P.desc.str()).b("four_argument_overload", four).d("step", step).d("rmin", rmin).d("rcut", rcut);
@@ -618,8 +714,11 @@ static void part_pot(vfh::Rng &rng, vfh::Reporter &R, long ncases, const std::st
       t.Load(fn);
       R.eval(P.type + "_pottab");
       LD ratio = ((LD)rcut - (LD)rmin) / (LD)step;
-      long nexp = (long)floorl(ratio + 1.00000001L);
-      bool n_dontcare = fabsl(ratio - roundl(ratio)) < 1e-6L;
+      long nexp = (long)floorl(ratio) + 1;
+      bool n_dontcare = false;
+      if (fabsl(ratio - roundl(ratio)) <= 1e-9L * std::max((LD)1, ratio)) nexp = (long)roundl(ratio) + 1;  // an integer number of steps up to rounding
+      else if (ratio - floorl(ratio) >= 1 - 1e-6L) n_dontcare = true;  // just below an integer: inside the tool's own 1e-8 slack
+      if (decimal) R.counter("pottab_decimal_grids");
       if (t.size() != nexp) {
         if (n_dontcare) R.counter("pottab_gridsize_near_integer_ratio_dontcare");
         else R.violation(P.type + "/pottab/grid-size", "number of table points differs from (rcut-rmin)/step+1", J().raw("case", w.str()).i("got", t.size()).i("expected", nexp));
@@ -689,8 +788,15 @@ static void part_spline(vfh::Rng &rng, vfh::Reporter &R, long ncases) {
   for (long ic = 0; ic < ncases; ++ic) {
     int type = (int)(ic % 3);  // 0 linear 1 cubic 2 akima
     int mode = (int)rng.range(0, 9);  // 0..5 interpolate natural, 6,7 periodic, 8,9 fit (linear/cubic)
-    bool periodic = (mode == 6 || mode == 7) && type != 0;
     bool fit = (mode >= 8) && type != 2;
+    // boundary setting: 0 natural 1 periodic 2 derivativezero. LinSpline ignores it (but it is set),
+    // Cubic/Akima::Interpolate document derivativezero as not implemented (not requested there).
+    int bcsel = 0;
+    if (fit) bcsel = (int)rng.range(0, 2);
+    else if (mode == 6 || mode == 7) bcsel = 1;
+    else if (type == 0 && mode == 5) bcsel = 2;
+    bool periodic = bcsel == 1;
+    const char *bcname = bcsel == 0 ? "natural" : bcsel == 1 ? "periodic" : "derivativezero";
     Data D = gen_data(rng, fit ? 12 : (type == 0 ? 2 : type == 1 ? 3 : 4));
     if (periodic) D.y[D.y.size() - 1] = D.y[0];
     std::unique_ptr<Spline> sp;
@@ -698,10 +804,11 @@ static void part_spline(vfh::Rng &rng, vfh::Reporter &R, long ncases) {
     if (type == 0) sp = std::make_unique<LinSpline>();
     else if (type == 1) sp = std::make_unique<CubicSpline>();
     else sp = std::make_unique<AkimaSpline>();
-    sp->setBC(periodic ? Spline::splinePeriodic : Spline::splineNormal);
-    std::string fam = std::string(tn) + (periodic ? "-periodic" : "") + (fit ? "-fit" : "");
+    if (rng.coin()) sp->setBC(bcsel == 0 ? Spline::splineNormal : bcsel == 1 ? Spline::splinePeriodic : Spline::splineDerivativeZero);
+    else sp->setBCInt(bcsel);
+    std::string fam = std::string(tn) + (bcsel == 0 ? "" : std::string("-") + bcname) + (fit ? "-fit" : "");
     J w;
-    w.s("spline", tn).s("bc", periodic ? "periodic" : "natural").b("fit", fit).vec("x", ev(D.x)).vec("y", ev(D.y));
+    w.s("spline", tn).s("bc", bcname).b("fit", fit).vec("x", ev(D.x)).vec("y", ev(D.y));
     const long n = D.x.size();
     Eigen::VectorXd knots = D.x;
     if (fit) {
@@ -712,7 +819,7 @@ static void part_spline(vfh::Rng &rng, vfh::Reporter &R, long ncases) {
       // data abscissae: uniform over the fit range so that the problem is well posed
       for (long i = 0; i < n; ++i) D.x[i] = a + (b - a) * (double)i / (double)(n - 1);
       w = J();
-      w.s("spline", tn).s("bc", "natural").b("fit", true).vec("x", ev(D.x)).vec("y", ev(D.y)).d("fitgrid_min", a).d("fitgrid_max", b).d("fitgrid_step", hfit);
+      w.s("spline", tn).s("bc", bcname).b("fit", true).vec("x", ev(D.x)).vec("y", ev(D.y)).d("fitgrid_min", a).d("fitgrid_max", b).d("fitgrid_step", hfit);
       vfh::set_case(w.str());
       sp->GenerateGrid(a, b, hfit);
       knots = sp->getX();
@@ -749,9 +856,9 @@ static void part_spline(vfh::Rng &rng, vfh::Reporter &R, long ncases) {
         fmax = std::fabs(f0);
         ok = false; num = NAN; err = 0;
         for (int side = -1; side <= 1; side += 2) {
-          if (side < 0 && kk == 0) continue;
-          if (side > 0 && kk == nk - 1) continue;
-          double wv = side > 0 ? knots[kk + 1] - knots[kk] : knots[kk] - knots[kk - 1];
+          // at the two end knots the outward side is judged as well (the reported value continues
+          // beyond the grid, whatever the continuation is); step from the end interval
+          double wv = (side > 0 && kk < nk - 1) || kk == 0 ? knots[kk + 1] - knots[kk] : knots[kk] - knots[kk - 1];
           // one-sided 4-point formula (exact for cubics) with two step sizes
           auto os = [&](double h) {
             volatile double x1 = x + side * h, x2 = x + side * 2 * h, x3 = x + side * 3 * h;
@@ -790,6 +897,51 @@ static void part_spline(vfh::Rng &rng, vfh::Reporter &R, long ncases) {
         R.nontrivial(h);
       }
       if (R.want_sample() && ip == 2 && ic % 11 == 0 && n <= 8) R.sample(J().raw("case", w.str()).d("at", x).d("derivative", an).d("numeric", num));
+    }
+    // ---- evaluation OUTSIDE the grid (left and right, up to a few grid lengths away): the reported
+    // derivative must still be the derivative of the reported value there
+    {
+      const double x0 = knots[0], x1 = knots[nk - 1], L = x1 - x0;
+      double hk = INFINITY;
+      for (long i = 0; i + 1 < nk; ++i) hk = std::min(hk, knots[i + 1] - knots[i]);
+      // magnitudes of the data: the end polynomial is evaluated far from its interval, its terms cancel
+      double Yd = D.y.cwiseAbs().maxCoeff(), Mxd = 0, K2d = 0, pm = 0, ph = 0;
+      for (long i = 0; i + 1 < n; ++i) {
+        double hh = D.x[i + 1] - D.x[i], m = (D.y[i + 1] - D.y[i]) / hh;
+        Mxd = std::max(Mxd, std::fabs(m));
+        if (i) K2d = std::max(K2d, 2 * std::fabs(m - pm) / (hh + ph));
+        pm = m; ph = hh;
+      }
+      for (int ip = 0; ip < 4; ++ip) {
+        int side = ip < 2 ? -1 : 1;
+        double dist = L * (ip % 2 ? rng.logu(1e-3, 0.3) : rng.logu(0.3, 3.0));
+        double x = side < 0 ? x0 - dist : x1 + dist;
+        double h = std::min(0.4 * dist, 0.05 * hk);
+        if (!(h > 1e3 * EPS * std::max(std::fabs(x), L))) { R.counter("outside_point_below_resolution_not_judged"); continue; }
+        const double he = side < 0 ? knots[1] - knots[0] : knots[nk - 1] - knots[nk - 2];
+        const double dd = dist + he, q = dd / he;
+        const double terms = Yd + Mxd * dd * (1 + q + q * q) + 3 * K2d * dd * dd * (1 + q);
+        Fd d = richardson([&](double t) { return sp->Calculate(t); }, x, h, 16 * EPS * terms);
+        double an = sp->CalculateDerivative(x);
+        if (!std::isfinite(an) || !std::isfinite(d.d)) {
+          R.violation(std::string("spline/") + fam + "/non-finite-outside-grid", "spline value or derivative not finite outside the grid", J().raw("case", w.str()).d("at", x).d("derivative", an));
+          continue;
+        }
+        R.eval(std::string("spline_") + fam + "_outside");
+        double nat = d.fmax / std::max(dist, hk);
+        if (!(d.err <= 1e-4 * std::max(std::fabs(d.d), nat))) { R.counter(std::string("spline_") + tn + "_outside_fd_unreliable_not_judged"); continue; }
+        double tol = 1e-6 * std::max(std::fabs(an), std::fabs(d.d)) + 10 * d.err;
+        stat(std::string("spline_") + fam + "_outside", std::fabs(an - d.d), tol);
+        if (!(std::fabs(an - d.d) <= tol))
+          R.violation(std::string("spline/") + fam + "/derivative-outside-grid",
+                      "outside the data grid CalculateDerivative differs from the finite-difference derivative of Calculate",
+                      J().raw("case", w.str()).d("at", x).d("grid_first", x0).d("grid_last", x1).d("derivative", an).d("numeric", d.d).d("fd_error_estimate", d.err));
+        else if (n > 2 && (D.y.maxCoeff() - D.y.minCoeff()) > 0) {
+          uint64_t hh = vfh::hstr(6, fam);
+          hh = vfh::hdouble(hh, x); hh = vfh::hdouble(hh, D.y[0]); hh = vfh::hdouble(hh, D.x[1]);
+          R.nontrivial(hh);
+        }
+      }
     }
   }
 }
